@@ -165,7 +165,7 @@ func l4Bytes(kind string, n int, r *rand.Rand) (slayers.L4ProtocolType, []byte) 
 func (e *Env) Build(a *APkt, o BuildOpts, now time.Time) ([]byte, error) {
 	r := o.Rng
 	s := &slayers.SCION{Version: 0, TrafficClass: uint8(r.Intn(256)), FlowID: uint32(1 + r.Intn(0xfffff)),
-		SrcIA: IAOf(a.Src), DstIA: IAOf(a.Dst)}
+		SrcIA: e.IA(a.Src), DstIA: e.IA(a.Dst)}
 	if err := s.SetDstAddr(addr.HostIP(hostFor(a.Dst, true))); err != nil {
 		return nil, err
 	}
